@@ -1,12 +1,12 @@
 (* AdfCache.v -- executable, fault-free model of the two shared 4096-byte block buffers of the ADF core, for ANY
    NUMBER OF FILES open together (property C02, extension C02b).  Definitions only.
 
-   Transcribed from src/adf/ADF_internals.c:
+   Transcribed from src/adf/ADF_internals.c (line numbers of /repo def473d; the routines are found by name):
      statics  rd_block_buffer, last_rd_block, last_rd_file, num_in_rd_block,
               wr_block_buffer, last_wr_block, last_wr_file, flush_wr_block          (269-276)
-     ADFI_read_file (6201-6294), ADFI_write_file (7984-8123), ADFI_flush_buffers (4658-4691),
-     ADFI_fseek_file's in_use test (4719-4722), the buffer part of ADFI_close_file (1755-1791, in_use = 1, no links)
-     and of ADFI_open_file (5503, 5554: a slot becomes in use; no buffer is touched).
+     ADFI_read_file (6228-6321), ADFI_write_file (8011-8150), ADFI_flush_buffers (4685-4718),
+     ADFI_fseek_file's in_use test (4746-4749), the buffer part of ADFI_close_file (1775-1830, in_use = 1, no links)
+     and of ADFI_open_file (5477-: a slot becomes in use; no buffer is touched).
    AdfIO.v (property C14) has the same routines for ONE file under a fallible operating system; here the OS never
    fails, and the file index is carried through every comparison because the buffers are shared between files.
 
